@@ -55,7 +55,13 @@ impl StructParser {
                 let is_ident = |c: char| c.is_alphanumeric() || c == '_';
                 ["Serialize", "Deserialize"].iter().any(|name| {
                     tokens_str.match_indices(name).any(|(pos, _)| {
-                        !tokens_str[..pos].chars().next_back().is_some_and(is_ident)
+                        // written with a path, it is serde's: rkyv::Serialize is another macro
+                        let path = tokens_str[..pos].trim_end();
+                        let foreign_path = path
+                            .strip_suffix("::")
+                            .is_some_and(|owner| !owner.trim_end().ends_with("serde"));
+                        !foreign_path
+                            && !tokens_str[..pos].chars().next_back().is_some_and(is_ident)
                             && !tokens_str[pos + name.len()..]
                                 .chars()
                                 .next()
